@@ -10,7 +10,8 @@
 //! case: {"op":..,"script":[{"t":..,"k":..}],"data":[..],"init":[..],"cap0":N,"n":N,"pieces":[..],
 //!        "ff":1 (optional, write_fmt: the Display impl fails after its last fragment)}
 //! Scripted reader: "c" k = a chunk of k bytes becomes available (a call gets min(k, requested),
-//! the rest is served by the following calls), "eof" = Ok(0), "eintr", "err" k = errno k; an
+//! the rest is served by the following calls), "eof" = Ok(0), "eintr" (k > 1: k EINTRs in a row; the log
+//! holds one entry (len, "eintr", count) per item), "err" k = errno k; an
 //! exhausted script is end of file.  After end of file / an error has been returned the reader
 //! serves POISON (3 x up to 7 bytes 0xEE, then Ok(0)): a helper that keeps reading shows it in its
 //! result.  Scripted writer: "a" k accepts min(k, offered), "zero" = Ok(0), "eintr", "err" k;
@@ -45,16 +46,31 @@ struct Scripted {
     term: bool,
     after: usize,
     ncalls: usize,
+    eintr_left: usize,
+    eintr_item: usize,
     calls: Vec<(usize, &'static str, i64)>,
     sink: Vec<u8>,
 }
 impl Scripted {
     fn new(script: Vec<Item>, data: Vec<u8>) -> Self {
-        Scripted { script, data, ri: 0, left: 0, pos: 0, term: false, after: 0, ncalls: 0, calls: vec![], sink: vec![] }
+        Scripted { script, data, ri: 0, left: 0, pos: 0, term: false, after: 0, ncalls: 0, eintr_left: 0, eintr_item: usize::MAX, calls: vec![], sink: vec![] }
     }
     fn tick(&mut self) {
         self.ncalls += 1;
-        assert!(self.ncalls <= 20_000, "runaway: more than 20000 calls");
+        assert!(self.ncalls <= 60_000, "runaway: more than 60000 calls");
+    }
+    /// one EINTR of the run of item `item`; the log holds ONE entry per item: (len, "eintr", how many)
+    fn log_eintr(&mut self, item: usize, len: usize) {
+        if self.eintr_item == item {
+            if let Some(last) = self.calls.last_mut() {
+                if last.1 == "eintr" && last.0 == len {
+                    last.2 += 1;
+                    return;
+                }
+            }
+        }
+        self.eintr_item = item;
+        self.calls.push((len, "eintr", 1));
     }
     fn deliver(&mut self, buf: &mut [u8], n: usize) {
         buf[..n].copy_from_slice(&self.data[self.pos..self.pos + n]);
@@ -84,6 +100,11 @@ impl Read for Scripted {
             self.calls.push((req, "after", n as i64));
             return Ok(n);
         }
+        if self.eintr_left > 0 {
+            self.eintr_left -= 1;
+            self.log_eintr(self.ri - 1, req);
+            return Err(os_err(EINTR));
+        }
         if self.left > 0 {
             let n = self.left.min(req);
             self.deliver(buf, n);
@@ -112,7 +133,9 @@ impl Read for Scripted {
                 Ok(0)
             }
             "eintr" => {
-                self.calls.push((req, "eintr", 0));
+                // k > 1: a run of k consecutive EINTRs
+                self.eintr_left = it.k.max(1) - 1;
+                self.log_eintr(self.ri - 1, req);
                 Err(os_err(EINTR))
             }
             "err" => {
@@ -137,6 +160,11 @@ impl Write for Scripted {
             self.calls.push((m, "after", m as i64));
             return Ok(m);
         }
+        if self.eintr_left > 0 {
+            self.eintr_left -= 1;
+            self.log_eintr(self.ri - 1, m);
+            return Err(os_err(EINTR));
+        }
         if self.ri >= self.script.len() {
             self.sink.extend_from_slice(buf);
             self.pos += m;
@@ -160,7 +188,8 @@ impl Write for Scripted {
                 Ok(0)
             }
             "eintr" => {
-                self.calls.push((m, "eintr", 0));
+                self.eintr_left = it.k.max(1) - 1;
+                self.log_eintr(self.ri - 1, m);
                 Err(os_err(EINTR))
             }
             "err" => {
